@@ -123,6 +123,14 @@ func joinValues(values []any, sep string) string {
 	return strings.Join(strValues, sep)
 }
 
+// defaultValueText serialises a default value for a header or a cookie: arrays in their comma-separated form
+func defaultValueText(value any) string {
+	if t, ok := value.([]any); ok {
+		return joinValues(t, ",")
+	}
+	return fmt.Sprint(value)
+}
+
 // populateDefaultQueryParameters populates default values inside query parameters, while ensuring types are respected
 func populateDefaultQueryParameters(q url.Values, parameterName string, value any, explode bool) {
 	switch t := value.(type) {
@@ -197,11 +205,11 @@ func ValidateParameter(ctx context.Context, input *RequestValidationInput, param
 				populateDefaultQueryParameters(q, parameter.Name, value, explode)
 				req.URL.RawQuery = q.Encode()
 			case openapi3.ParameterInHeader:
-				req.Header.Add(parameter.Name, fmt.Sprint(value))
+				req.Header.Add(parameter.Name, defaultValueText(value))
 			case openapi3.ParameterInCookie:
 				req.AddCookie(&http.Cookie{
 					Name:  parameter.Name,
-					Value: fmt.Sprint(value),
+					Value: defaultValueText(value),
 				})
 			}
 		}
